@@ -270,6 +270,14 @@ __gmp_doprnt (const struct doprnt_funs_t *funs, void *data,
             TRACE (printf ("integer, base=%d\n", param.base));
             if (! seen_precision)
               param.prec = -1;
+            /* C99: the 0 flag is ignored if the - flag is present, and, for
+               integer conversions, if a precision is specified */
+            if (param.justify == DOPRNT_JUSTIFY_LEFT || param.prec >= 0)
+              {
+                param.fill = ' ';
+                if (param.justify == DOPRNT_JUSTIFY_INTERNAL)
+                  param.justify = DOPRNT_JUSTIFY_RIGHT;
+              }
             switch (type) {
             case 'j':
               /* Let's assume uintmax_t is the same size as intmax_t. */
@@ -362,6 +370,9 @@ __gmp_doprnt (const struct doprnt_funs_t *funs, void *data,
                 param.showtrailing = 1;
               }
           floating_a:
+            /* C99: the 0 flag is ignored if the - flag is present */
+            if (param.justify == DOPRNT_JUSTIFY_LEFT)
+              param.fill = ' ';
             switch (type) {
             case 'F':
               FLUSH ();
